@@ -54,6 +54,9 @@ pub enum Step {
     Connect { txs: Vec<TxSel>, stream: bool, chunk: u16, probe: bool },
     /// disconnect up to `depth` blocks from the tip
     Disconnect { depth: u8, stream: bool },
+    /// wire delivery only (the handler persists the tracker after every block): the signer is
+    /// rebuilt by `HandlerBuilder` from a copy of its store and the history continues on it
+    Restart,
 }
 
 #[derive(Clone, Debug, Serialize, Deserialize)]
@@ -474,7 +477,7 @@ impl Prop for C14 {
             "level B mirrors the protocol handler, which expect()s the result of ChainTracker::remove_block: an error returned for the removal of the tracker's own tip with a proof built from its own reverse watches counts as an abort".into(),
             "the counterparty's revoked commitment (previous state, properly revoked) is part of the commitment transactions of the quantifier".into(),
             "wire delivery: the follower takes the filter header of the parent block from its own chain (no protocol message reports it) and the attestation height from TipInfo; it removes a block only if TipInfo names it".into(),
-            "wire delivery: a valid block of the best chain that the AddBlock / RemoveBlock handler answers with a panic (the handlers expect() the tracker's result) is an abort of the signer; histories have no signer restart".into(),
+            "wire delivery: a valid block of the best chain that the AddBlock / RemoveBlock handler answers with a panic (the handlers expect() the tracker's result) is an abort of the signer; wire histories restart the signer from its store between blocks".into(),
         ]
     }
     fn cases(&self, tier: Tier) -> u32 {
@@ -522,6 +525,7 @@ impl Prop for C14 {
                 .prop_map(|(txs, stream, chunk, probe)| Step::Connect { txs, stream, chunk, probe }),
             2 => (prop_oneof![5 => Just(1u8), 3 => Just(2u8), 2 => Just(3u8), 3 => 4u8..=max_depth], prop::bool::weighted(0.12))
                 .prop_map(|(depth, stream)| Step::Disconnect { depth, stream }),
+            1 => Just(Step::Restart),
         ];
         (prop::bool::weighted(0.34), proptest::collection::vec(chan, 1..3), prop::bool::weighted(0.6), proptest::collection::vec(step, 4..max_steps), prop::bool::weighted(0.3))
             .prop_map(|(level_b, chans, prefund, mut steps, wire)| {
@@ -747,6 +751,30 @@ impl C14 {
                     let d = twin.add(&sb, false, 0);
                     if !self.add_outcome(ctx, st, case, &sim, false, d, i, true, None)? {
                         break 'steps;
+                    }
+                }
+                Step::Restart => {
+                    if !wire {
+                        continue;
+                    }
+                    if case.chans.iter().any(|c| c.fulfill) {
+                        // payment preimages the signer has been told are kept in memory only, so a
+                        // restarted signer no longer counts the received HTLC outputs of its own
+                        // commitment among its outputs; the property is about the chain, not about
+                        // that: such histories have no restart (counted)
+                        st.class("wire:restart-skipped(preimages are known in memory only)");
+                        continue;
+                    }
+                    let pw = sys.pw.as_mut().expect("wire mode has a handler");
+                    if !pw.restart().is_ok() {
+                        st.class("wire:restart-failed");
+                        break 'steps;
+                    }
+                    sys.w.rebind_proto(sys.pw.as_ref().unwrap());
+                    st.class("wire:restart");
+                    shape.push((3, String::new()));
+                    if trace.len() < 40 {
+                        trace.push(json!({"step": i, "restart": true, "height": sim.height()}));
                     }
                 }
                 Step::Disconnect { depth, stream } => {
